@@ -1254,6 +1254,121 @@ def search_pseudo(ck):
                                       'have the same E/Z configuration', {'template': tmpl, 'marks': (m0, m1)}, f'equal={same}: {ref} / {strs[(m0, m1, "@@")]}',
                                       f'equal={m0 == m1}', 'symmetry of the template (OpenSMILES reading of the marks)')
 
+# ---------------------------------------------------------------------------------------------------------------
+# __chiral_centers (coq/model/StereoChiral.v): weights (_chiral_morgan) and atoms_rings are inputs taken from the real code
+
+CHIRAL_ZOO = ['C[C@H](N)C(=O)O', 'CC(O)C(F)C(O)C', 'C[C@H](O)C(F)[C@@H](O)C', 'C[C@H](O)C(F)[C@H](O)C', 'OC1C(O)C(O)C1O', 'O[C@H]1C(O)[C@@H](O)C1O',
+              'CC1CCC(C)CC1', 'C[C@H]1CC[C@@H](C)CC1', 'CC1CCC(O)CC1', 'CC1CC(C)C1', 'CC1CC12CC2C', 'C1CC12CC2', 'C1CCC2(C1)CCOC2', 'C1COC2(C1)CCOC2',
+              'C1CC2CCC1C2', 'CC12CCC(C1)C2(C)C', 'C1CCC2CCCCC2C1', 'C[C@H]1CC[C@@H]2CCCC[C@H]2C1', 'CC=C1CCC(C)CC1', 'C/C=C1/CC[C@H](C)CC1',
+              'CC1CCC(CC1)=C1CCC(C)CC1', 'CC1CCC(CC1)=C=C1CCC(C)CC1', 'C1CCCCCCC=C=C1', 'C1CCCC=C=CCC1', 'C1CCCCCC/C=C/1', 'C1CCCCCC=CCCCC1', 'C1CC=CCC1',
+              'C1CCC=C=CCCC=C=C1', 'CC1CCC(=C=CC)CC1', 'CC(F)=C=C1CCC(C)CC1', 'C1CCC(=C2CCC2)C1', 'CC1CC(=CF)C1', 'FC=C1CC(=CF)C1', 'FC=C1CC(=C=CF)C1',
+              'CC=CC(O)C=CC', 'C/C=C/C(O)/C=C\\C', 'CC(F)=C=C(C)F', 'FC=C=C=CF', 'CC=C(C)C(O)C(C)=CC', 'OC1CC(O)CC(O)C1', 'O[C@H]1C[C@@H](O)C[C@H](O)C1',
+              'CC1OC(C)C1F', 'C1CC1C1CC1', 'CC1CC1C1CC1C', 'C1CCC(CC1)C1CCC(C)CC1', 'N[C@@H](Cc1ccccc1)C(O)=O', 'C[C@]12CC[C@H]3[C@@H](CCc4cc(O)ccc34)[C@@H]1CC[C@@H]2O']
+
+
+def chiral_locals(m):
+    """call the real __chiral_centers and return (result, locals at return) -- the local variables graph / stereogenic / pseudo are
+    read with a profile hook, nothing in /repo is touched"""
+    import sys
+    m._chiral_morgan, m.atoms_rings      # inputs of the model: computed before
+    m.__dict__.pop('_MoleculeStereo__chiral_centers', None)
+    box = {}
+
+    def prof(frame, event, arg):
+        if event == 'return' and frame.f_code.co_name == '__chiral_centers':
+            box['locals'] = {k: frame.f_locals.get(k) for k in ('graph', 'stereogenic', 'pseudo')}
+    sys.setprofile(prof)
+    try:
+        res = (set(m.chiral_tetrahedrons), set(m.chiral_cis_trans), set(m.chiral_allenes))
+    finally:
+        sys.setprofile(None)
+    return res, box.get('locals', {})
+
+
+CHIRAL_EXTRA = """
+Definition wtab (tab : list (Z * Z)) (x : Z) : Z := match zget tab x with Some v => v | None => 0 end.
+Definition chiral_ok (g : mol) (ar : list (Z * list (list Z))) (tab : list (Z * Z)) (exp : list centre) (gr : list (Z * list Z)) (sg : list Z) : bool :=
+  match registries_real g with
+  | Ok r => match final_state g r ar (wtab tab) with
+            | Ok s => graph_same (c_graph s) gr && zset_same (c_sg s) sg &&
+                      match centres_of_state g r s with Ok l => centres_same l exp | Err _ => false end
+            | Err _ => false end
+  | Err _ => false end.
+Definition chiral_err (g : mol) (ar : list (Z * list (list Z))) (tab : list (Z * Z)) : bool :=
+  match registries_real g with
+  | Ok r => match chiral_centres g r ar (wtab tab) with Err KeyError => true | _ => false end
+  | Err _ => false end.
+"""
+
+
+def chiral_inputs(ck):
+    from chython import smiles
+    rng = random.Random(f'{ck.seed}:chiral')
+    smis = list(CHIRAL_ZOO) + list(FIX_TEMPLATES) + [t.format(*c) for t, o, _ in PSEUDO_FAMILIES for c in itertools.product(*o)][::3]
+    smis += corpus.sample(corpus.stereo_smiles(), 60 if ck.tier == 'quick' else 600, ck.seed, 'c12chiral')
+    out = []
+    for smi in smis:
+        try:
+            m = smiles(smi)
+        except Exception:
+            continue
+        out.append((smi, 'as read', m))
+        c = m.copy()
+        c.clean_stereo()
+        out.append((smi, 'no labels', c))
+        r = corpus.renumber(m, rng)
+        out.append((smi, 'renumbered', r))
+        # half of the labels removed: dependent centres appear / disappear
+        p = m.copy()
+        lab = [a for _, a in p.atoms() if a.stereo is not None]
+        for a in lab[::2]:
+            a._stereo = None
+        p.flush_cache()
+        if lab:
+            out.append((smi, 'half labelled', p))
+    return out
+
+
+def corr_chiral(ck):
+    """__chiral_centers of the real code == model on the same molecule, atoms_rings and _chiral_morgan classes: the three result sets
+    AND the local variables graph (after pruning, in dict order) and stereogenic, read at return with a profile hook"""
+    import coqmol
+    cases, meta = [], []
+    for smi, kind, m in chiral_inputs(ck):
+        try:
+            (ct, cc, ca), loc = chiral_locals(m)
+        except KeyError:
+            g = coqmol.mol_term(m)
+            ar = lst([f'({zraw(n)}, {lst([lst(list(r), zraw) for r in rs])})' for n, rs in m.atoms_rings.items()])
+            tab = lst([f'({zraw(k)}, {zraw(v)})' for k, v in m._chiral_morgan.items()])
+            cases.append(f'chiral_err {g} {ar} {tab}')
+            meta.append((smi, kind, 'KeyError'))
+            ck.count('chiral: raises KeyError')
+            continue
+        except Exception:
+            continue
+        g = coqmol.mol_term(m)
+        ar = lst([f'({zraw(n)}, {lst([lst(list(r), zraw) for r in rs])})' for n, rs in m.atoms_rings.items()])
+        tab = lst([f'({zraw(k)}, {zraw(v)})' for k, v in m._chiral_morgan.items()])
+        exp = lst([f'(CT {zraw(n)})' for n in ct] + [f'(CC {zraw(a)} {zraw(c)})' for a, c in cc] + [f'(CA {zraw(n)})' for n in ca])
+        gr = lst([f'({zraw(n)}, {lst(list(ms), zraw)})' for n, ms in (loc.get('graph') or {}).items()])
+        sg = lst(list(loc.get('stereogenic') or ()), zraw)
+        cases.append(f'chiral_ok {g} {ar} {tab} {exp} {gr} {sg}')
+        meta.append((smi, kind, sorted(ct), sorted(cc), sorted(ca), loc.get('graph')))
+        ck.case(('chiral', smi, kind, tuple(m._atoms)), nontrivial=bool(ct or cc or ca or loc.get('graph')))
+        ck.count('chiral: ' + kind)
+        ck.count('chiral: axes graph nodes after pruning', len(loc.get('graph') or {}))
+        ck.count('chiral: chiral centres found', len(ct) + len(cc) + len(ca))
+    ok, failing, log = coqcases.run_cases('c12chiral', 'Graph Stereo StereoRegistry StereoFix StereoChiral', cases, extra=CHIRAL_EXTRA, shard=25)
+    ck.oblige('correspondence: __chiral_centers (result sets, axes graph after pruning, stereogenic set) == Coq model on the real atoms_rings / '
+              '_chiral_morgan', ok and not failing, 'correspondence', log or str([meta[i] for i in failing[:5]]))
+    ck.extra['chiral_cases'] = len(cases)
+    if not ok or failing:
+        search_stereogenic(ck, [x[0] for x in [meta[i] for i in failing[:40]]])
+        search_pseudo(ck)
+        ck.unchecked('correspondence StereoChiral model vs MoleculeStereo.__chiral_centers', log[-1500:], [repr(meta[i]) for i in failing[:20]])
+    return ok and not failing
+
 
 def search(ck, budget):
     """property-level oracles on the real code, independent of the model"""
@@ -1589,13 +1704,14 @@ def run(ck):
                         'states of 27 templates. non-trivial = the implementation returned a sign / the molecule has a registry entry / a label is dropped or '
                         'several labels interact. search: corpus stereo molecules respelled by chython and re-read by RDKit; non-trivial = has at least one '
                         'stereo element')
-    proved = common.standard_proof_steps(ck, translators=['stereo', 'elements'], extra_targets=['model/StereoRegistry.vo', 'model/StereoSmiles.vo', 'model/StereoFix.vo', 'model/StereoWedge.vo', 'model/StereoParse.vo'])
+    proved = common.standard_proof_steps(ck, translators=['stereo', 'elements'], extra_targets=['model/StereoRegistry.vo', 'model/StereoSmiles.vo', 'model/StereoFix.vo', 'model/StereoWedge.vo', 'model/StereoParse.vo', 'model/StereoChiral.vo'])
     tied = corr_translate(ck)
     tied = corr_registries(ck) and tied
     tied = corr_smiles_marks(ck) and tied
     tied = corr_fix_stereo(ck) and tied
     tied = corr_wedge(ck) and tied
     tied = corr_parse_marks(ck) and tied
+    tied = corr_chiral(ck) and tied
     search(ck, 150 if ck.tier == 'quick' else 1500)
     ck.extra['proved'] = proved
     ck.extra['tied'] = tied
